@@ -145,9 +145,14 @@ def grep_forbidden():
         if ".lake" in root:
             continue
         for f in files:
-            if f.endswith(".lean"):
+            if f.endswith(".lean") and not f.startswith(".audit_"):
+                # (.audit_*: the short-lived `#print axioms` files of checks running at the same time)
                 p = os.path.join(root, f)
-                for ln, line in enumerate(strip_comments(open(p).read()).split("\n"), 1):
+                try:
+                    text = open(p).read()
+                except FileNotFoundError:
+                    continue
+                for ln, line in enumerate(strip_comments(text).split("\n"), 1):
                     if FORBIDDEN.search(line):
                         hits.append("%s:%d: %s" % (os.path.relpath(p, LEAN_DIR), ln, line.strip()))
     return hits
